@@ -516,6 +516,7 @@ type c15result struct {
 	obs      []*c15obs
 	tls      []*c15tlsObs
 	finalVer string
+	finalRM  int // RetryMax inside the (only) balancer at quiescence
 	errs     []string
 }
 
@@ -660,6 +661,9 @@ func (e *c15env) exec(sc c15scn, ch *vk.Chooser) (vsched.Outcome, *c15result) {
 	if sf := srv.ServerConf; sf != nil {
 		res.finalVer = sf.HostTable.GetVersions().HostTag
 	}
+	if bal := e.bals[c15cluster(sc.balOf(), sc.balOf())]; bal != nil {
+		res.finalRM, _ = bal.VerifC15Basic()
+	}
 	return out, res
 }
 
@@ -716,6 +720,13 @@ func (e *c15env) check(r *vk.Run, sc c15scn, id string, out vsched.Outcome, res 
 		}
 	}
 	final := c15verNum(res.finalVer)
+	if strings.ContainsAny(sc.threads, "SC") {
+		if res.finalRM == final {
+			r.Outcome("quiescence:balancer-gslb-basic=final-server-data-conf")
+		} else {
+			r.Outcome("quiescence:balancer-gslb-basic-OLDER-than-final-server-data-conf(no request involved: not judged)")
+		}
+	}
 	for _, o := range res.obs {
 		who := fmt.Sprintf("request %d (%s)", o.id, c15obsKey(o))
 		if !o.done {
@@ -801,7 +812,14 @@ func (e *c15env) check(r *vk.Run, sc c15scn, id string, out vsched.Outcome, res 
 		case c15rank(o.retryMax, final) > c15rank(s, final):
 			r.Outcome("gslb-basic:newer-than-snapshot(not judged)")
 		default:
-			r.Violation("gslb-basic:older-than-request-snapshot", id, fmt.Sprintf("%s: the request took its snapshot from version %d, yet the balancer ran with the gslb-basic parameters (RetryMax, CrossRetry, HashConf, BalanceMode) of version %d, which had been replaced before the request started", who, s, o.retryMax))
+			// two root causes: the window between publishing a snapshot and pushing its gslb-basic
+			// part into the balancers (repaired by the end of the reload), and a push of an
+			// already replaced snapshot by a concurrent reload (stays wrong at quiescence)
+			kind := "window-between-publish-and-push"
+			if res.finalRM != final {
+				kind = "stale-push-by-concurrent-reload-persists"
+			}
+			r.Violation("gslb-basic:older-than-request-snapshot:"+kind, id, fmt.Sprintf("%s: the request took its snapshot from version %d, yet the balancer ran with the gslb-basic parameters (RetryMax, CrossRetry, HashConf, BalanceMode) of version %d, which had been replaced before the request started; when all reloads had finished the server data conf was version %d and the balancer had the parameters of version %d", who, s, o.retryMax, final, res.finalRM))
 		}
 		if sc.mods || strings.ContainsAny(sc.threads, "BEW") {
 			hasE, hasW := strings.Contains(sc.threads, "E"), strings.Contains(sc.threads, "W")
@@ -927,7 +945,7 @@ func (s *c15stderr) newRaces() []string {
 			if !(strings.Contains(l, " by goroutine ") || strings.Contains(l, " by main goroutine")) || !strings.HasSuffix(l, ":") {
 				continue
 			}
-			fn := "?"
+			fn, inner := "?", ""
 			for j := i + 1; j < len(lines); j++ {
 				m := c15frameRe.FindStringSubmatch(lines[j])
 				if m == nil {
@@ -936,10 +954,17 @@ func (s *c15stderr) newRaces() []string {
 					}
 					continue
 				}
+				short := m[1][strings.LastIndex(m[1], "/")+1:]
+				if inner == "" {
+					inner = short
+				}
 				if strings.Contains(m[1], "bfenetworks/bfe/") && !strings.Contains(m[1], "verifkit/") {
-					fn = m[1][strings.LastIndex(m[1], "/")+1:]
+					fn = short
 					break
 				}
+			}
+			if inner != "" && inner != fn {
+				fn = inner + "<-" + fn
 			}
 			fns = append(fns, fn)
 		}
@@ -993,7 +1018,7 @@ func c15passes(thorough bool) []c15pass {
 		{name: "R+S+G+W/b1", threads: "RSGW", paths: []string{"/rw"}, bal: 1},
 	}
 	if !thorough {
-		return []c15pass{{2, two, true}, {1, three, true}, {1, four, true}}
+		return []c15pass{{2, two, true}, {1, three, true}, {0, four, true}}
 	}
 	return []c15pass{{3, two, false}, {2, three, false}, {2, four, false}}
 }
@@ -1021,7 +1046,21 @@ func TestVerifC15(t *testing.T) {
 		r.Set("time_in_reset_s", math.Round(c15tReset.Seconds()))
 		r.Set("time_in_controlled_runs_s", math.Round(c15tRun.Seconds()))
 	}()
-	for _, ps := range c15passes(r.Thorough()) {
+	passes := c15passes(r.Thorough())
+	if r.Replaying() {
+		// the case id names scenario and bound; find the scenario whatever pass it is in now
+		nm := strings.SplitN(r.ReplayCase(), "|", 2)[0]
+		passes = nil
+		for _, ps := range c15passes(true) {
+			for _, sc := range ps.scns {
+				if strings.HasPrefix(nm, sc.name+"@") {
+					b, _ := strconv.Atoi(strings.TrimPrefix(nm, sc.name+"@"))
+					passes = append(passes, c15pass{bound: b, scns: []c15scn{sc}})
+				}
+			}
+		}
+	}
+	for _, ps := range passes {
 		for _, sc := range ps.scns {
 			name := fmt.Sprintf("%s@%d", sc.name, ps.bound)
 			states := map[string]bool{}
